@@ -9,7 +9,10 @@
  *           z<hex>[!k]        json_object_set_string(o, bytes ++ NUL)
  *           o<off>,<len>[!k]  json_object_set_string_len(o, json_object_get_string(o) + off, len)
  *           s<off>[!k]        json_object_set_string(o, json_object_get_string(o) + off)
- *                             (the source is the node's own current buffer)
+ *                             (the source is the node's own current buffer; refused with BADOP
+ *                             unless it lies inside the contents and is their start or disjoint
+ *                             from the destination; O / S: the same without the overlap test,
+ *                             for hand-written witnesses only)
  *           g                 observe only
  *   !k      the k-th allocation request counted from the start of this call fails
  * observation per step:
@@ -170,7 +173,8 @@ void run_case(char *rest)
 		int ret;
 		printf(" | ");
 		if (tok[0] == 'g') { observe(o, "g", 0, flags); continue; }
-		if (tok[0] == 'o' || tok[0] == 's') {
+		if (tok[0] == 'o' || tok[0] == 's' || tok[0] == 'O' || tok[0] == 'S') {
+			int strict = (tok[0] == 'o' || tok[0] == 's'), bylen = (tok[0] == 'o' || tok[0] == 'O');
 			/* own-buffer source: the expected bytes are a slice of the current ones */
 			char *bang = strchr(tok, '!');
 			long long off = 0, ln = 0;
@@ -178,7 +182,7 @@ void run_case(char *rest)
 			const char *own;
 			fault = -1;
 			if (bang) { *bang = 0; fault = strtol(bang + 1, NULL, 10); }
-			if (tok[0] == 'o') {
+			if (bylen) {
 				if (sscanf(tok + 1, "%lld,%lld", &off, &ln) != 2) { printf("BADOP"); break; }
 				cnt = (size_t)ln;
 			} else {
@@ -189,13 +193,13 @@ void run_case(char *rest)
 				cnt = z ? (size_t)(z - (exp_b + off)) : exp_n - (size_t)off;
 			}
 			/* only sources inside the contents, exactly equal to or disjoint from the destination */
-			if (off < 0 || (size_t)off + cnt > exp_n || (off != 0 && cnt > (size_t)off)) { printf("BADOP"); break; }
+			if (off < 0 || (size_t)off + cnt > exp_n || (strict && off != 0 && cnt > (size_t)off)) { printf("BADOP"); break; }
 			b = (unsigned char *)(malloc)(cnt ? cnt : 1);
 			memcpy(b, exp_b + off, cnt);
 			own = json_object_get_string(o) + off;
 			before = xa_live;
 			if (fault >= 0) xa_fail_at = xa_count + fault;
-			ret = (tok[0] == 'o') ? json_object_set_string_len(o, own, (int)ln)
+			ret = bylen ? json_object_set_string_len(o, own, (int)ln)
 			                      : json_object_set_string(o, own);
 			xa_fail_at = -1;
 			if (ret == 1) set_expected(b, cnt);
